@@ -1191,6 +1191,27 @@ impl MachineState {
     }
 }
 
+/// True iff both paths name the same existing file (same device and inode on Unix,
+/// same canonical path elsewhere).
+fn is_same_file(a: &str, b: &str) -> bool {
+    #[cfg(unix)]
+    {
+        use std::os::unix::fs::MetadataExt;
+
+        match (fs::metadata(a), fs::metadata(b)) {
+            (Ok(ma), Ok(mb)) => ma.dev() == mb.dev() && ma.ino() == mb.ino(),
+            _ => false,
+        }
+    }
+    #[cfg(not(unix))]
+    {
+        match (fs::canonicalize(a), fs::canonicalize(b)) {
+            (Ok(pa), Ok(pb)) => pa == pb,
+            _ => false,
+        }
+    }
+}
+
 impl Machine {
     #[inline(always)]
     pub(crate) fn delete_all_attributes_from_var(&mut self) {
@@ -2160,6 +2181,12 @@ impl Machine {
     pub(crate) fn file_copy(&mut self) {
         if let Some(file) = self.machine_st.value_to_str_like(self.deref_register(1)) {
             if let Some(copied) = self.machine_st.value_to_str_like(self.deref_register(2)) {
+                // std::fs::copy opens the target with O_TRUNC before it reads the source:
+                // copying a file onto itself would empty it. The copy is already there.
+                if is_same_file(&file.as_str(), &copied.as_str()) {
+                    return;
+                }
+
                 if fs::copy(&*file.as_str(), &*copied.as_str()).is_ok() {
                     return;
                 }
